@@ -5,6 +5,7 @@
 
 #include <errno.h>
 #include <signal.h>
+#include <semaphore.h>
 #include <stdarg.h>
 #include <stdio.h>
 #include <stdlib.h>
@@ -1377,6 +1378,68 @@ extern "C" int nsim_sys_pthread_cond_signal (pthread_cond_t *c) {
 	sched_point ();
 	return 0;
 }
+
+// POSIX unnamed semaphores (platform/posix/src/nsync_semaphore_sem_t.c): a counting semaphore whose count lives in the
+// first word after a magic; sem_post / a successful wait synchronise memory (release / acquire), as POSIX requires.
+// Faults: sem_wait / sem_timedwait return EINTR (F1); sem_timedwait returns ETIMEDOUT early (F3), which nsync's loop
+// states it tolerates.  glibc order of checks: tv_nsec validity, then the count, then the deadline.
+struct PS { uint32_t magic; uint32_t count; };
+extern "C" int nsim_sys_sem_init (sem_t *s, int pshared, unsigned value) {
+	(void) pshared;
+	PS *p = (PS *) s; p->magic = 0x5053; p->count = value;
+	return 0;
+}
+extern "C" int nsim_sys_sem_post (sem_t *s) {
+	PS *p = (PS *) s;
+	Fibre *f = g.cur;
+	sched_point ();
+	if (nsim_cfg.hb_on) { vc_join (pm_vc ((uintptr_t) s), f->vc); f->vc[f->tid]++; }
+	p->count++;
+	hfold (0x9b1ULL << 32 ^ addr_id ((uintptr_t) s));
+	futex_wake ((uint32_t *) s, 1);
+	return 0;
+}
+static int sem_wait_common (sem_t *s, const struct timespec *ts) {
+	PS *p = (PS *) s;
+	Fibre *f = g.cur;
+	bool has_dl = false; int64_t dl = 0;
+	sched_point ();
+	g.futex_waits++;
+	if (ts) {
+		if (ts->tv_nsec < 0 || ts->tv_nsec >= 1000000000L) { errno = EINVAL; return -1; }
+		if (ts->tv_sec < (time_t) (INT64_MAX / 2000000000LL)) {
+			has_dl = true;
+			if (ts->tv_sec < 0) dl = INT64_MIN / 2;      /* glibc: a negative tv_sec is in the past */
+			else dl = (int64_t) ts->tv_sec * 1000000000LL + ts->tv_nsec;
+		}
+	}
+	for (;;) {
+		if (p->count > 0) {
+			p->count--;
+			if (nsim_cfg.hb_on) vc_join (f->vc, pm_vc ((uintptr_t) s));
+			hfold (0x9b2ULL << 32 ^ addr_id ((uintptr_t) s));
+			return 0;
+		}
+		if (choose_fault (CH_F_EINTR)) { TRACE ("sem_wait EINTR"); errno = EINTR; return -1; }
+		if (has_dl && dl <= g.now) { errno = ETIMEDOUT; return -1; }
+		f->waddr = (uintptr_t) s;
+		f->has_deadline = has_dl; f->deadline = dl;
+		f->fault_kind = 0;
+		if (choose_fault (CH_F_SPURIOUS)) { f->fault_kind = CH_F_EINTR; }        /* a signal while blocked */
+		else if (has_dl && choose_fault (CH_F_EARLYTO)) { f->fault_kind = CH_F_EARLYTO; }
+		if (f->fault_kind) f->fault_step = g.steps + 1 + take_choice (CH_WAKE_PICK, 40, g.replay_mode ? 0 : (int) rnd (g.rng, 40));
+		f->op_sleeps++; f->total_sleeps++;
+		if (has_dl) f->op_last_timed_block_ns = g.now;
+		g.futex_blocks++;
+		block_current (F_FUTEX);
+		int res = f->wake_res & 0xffff;
+		if (res == ETIMEDOUT && p->count == 0) { errno = ETIMEDOUT; return -1; }
+		if (res == EINTR && p->count == 0) { errno = EINTR; return -1; }
+		/* woken (or a post arrived meanwhile): re-test the count */
+	}
+}
+extern "C" int nsim_sys_sem_wait (sem_t *s) { return sem_wait_common (s, NULL); }
+extern "C" int nsim_sys_sem_timedwait (sem_t *s, const struct timespec *ts) { return sem_wait_common (s, ts); }
 
 // ------------------------------------------------------------------------------------------
 // Crash handling
